@@ -151,3 +151,21 @@ Definition py_format1 (fmt : string) (n : Z) : outcome string :=
   if String.eqb fmt "%x"%string then Ok (fmt_x n)
   else if String.eqb fmt "%.4x"%string then Ok (py_fmt_x4 n)
   else Raise Unsupported.
+
+(* l.sort(key=k): stable, ascending.  Insertion from the left, a new item goes behind the items whose key is not larger
+   (the same algorithm as Fb.sort_by_start) *)
+Fixpoint py_ins_asc {A} (key : A -> Z) (x : A) (l : list A) : list A :=
+  match l with
+  | [] => [x]
+  | y :: r => if key x <? key y then x :: l else y :: py_ins_asc key x r
+  end.
+Definition py_sort_asc {A} (key : A -> Z) (l : list A) : list A := fold_left (fun acc x => py_ins_asc key x acc) l [].
+(* the same with keys that are None or an int: with two or more items every item is compared at least once, and comparing None
+   with anything is a TypeError; fewer than two items are never compared *)
+Definition py_sort_optkey {A} (key : A -> option Z) (l : list A) : outcome (list A) :=
+  match l with
+  | [] | [_] => Ok l
+  | _ => if forallb (fun x => match key x with Some _ => true | None => false end) l
+         then Ok (py_sort_asc (fun x => match key x with Some k => k | None => 0 end) l)
+         else Raise TypeError
+  end.
